@@ -14,6 +14,7 @@ import Driver.C12
 import Driver.Crash
 import Driver.C03
 import Driver.C02
+import Driver.C13
 /-! Line-protocol driver. Usage: `drv <property>`; stdin: `op args… | impl-output`;
     stdout: one `MISMATCH`/`MONITOR` line per problem and a final `DONE` summary with coverage tags. -/
 open Drv
@@ -105,6 +106,7 @@ def main (args : List String) : IO UInt32 := do
   | ["crash"] => finish (← loopStateful Drv.Crash.step h {} {})
   | "C03" :: mode => finish (← loopStateful (Drv.C03.step (mode.headD "auto")) h {} {})
   | "C02" :: qs => finish (← loopStateless (Drv.C02.step (Drv.C02.parseQuirks (",".intercalate qs))) h {})
+  | "C13" :: mode => finish (← loopStateless (Drv.C13.step (mode.headD "auto")) h {})
   | ["inrange"] => finish (← loopStateless Drv.Store.inRangeStep h {})
   | ["store", prop] => finish (← loopStateful (Drv.Store.step prop) h {} {})
   | _ => IO.eprintln "usage: drv <property>"; return 2
